@@ -828,6 +828,21 @@ def make_check_C05(tier):
         spec["annots"] = [a for a in spec["annots"] if a.get("sym") != "s2"]
         spec["mods"] = _c.deepcopy(mods)
         chk.add("closed-only/mixed/%s" % rewrite_shapes.mods_name(mods), h_rewrite_closed_only, params=dict(spec=spec), timeout=900)
+    # block-keyed tables (types, encodings, sccs, profile): blocks that are merged away or removed must leave them
+    ins = rewrite_shapes.ins
+    for lay, mods in (("mixed", [ins("d0", 1, "string")]), ("mixed", [ins("b1", 1, "string")]), ("mixed", [ins("d0", 0, "string")]),
+                      ("mixed", [ins("d0", 2, "string")]), ("mixed", [dele("d0", 0, 2)]), ("mixed", [dele("b1", 0, 2)]),
+                      ("mixed", [dele("d0", 0, 1)]), ("mixed", [ins("d1", 0, "byte")]),
+                      ("nolabel", [dele("b0", 1, 2)]), ("nolabel", [ins("b0", 2, "mov")]), ("nolabel", [ins("b1", 0, "mov")]),
+                      ("nolabel", [ins("b0", 1, "jcc_tmp")]), ("nolabel", [dele("b1", 0, 3)]), ("nolabel", [ins("b0", 2, "ret")]),
+                      ("text", [ins("b1", 1, "label")]), ("text", [dele("b1", 0, 3)]), ("text", [ins("b1", 3, "mov"), dele("b2", 0, 1)])):
+        spec = {"mixed": rewrite_shapes.mixed_layout, "nolabel": rewrite_shapes.nolabel_layout,
+                "text": rewrite_shapes.text_layout}[lay]()
+        spec["blockaux"] = True
+        spec["mods"] = _c.deepcopy(mods)
+        chk.add("blockaux/%s/%s" % (lay, rewrite_shapes.mods_name(mods)), h_rewrite, params=dict(spec=spec, props=["C05"]), timeout=900)
+    chk.bounds["block-keyed tables"] = ("types/encodings on every data block, sccs/profile on every code block of the layout; "
+                                        ".string patches (the assembler records an encoding for their block)")
     chk.bounds["fault injection"] = "an exception raised from the k-th Patch.get_asm callback, every k up to the number of patches"
     chk.bounds["serialisation"] = "witness-level: the protobuf save/load round trip runs in the concrete replays only (protobuf is FFI)"
     return chk
